@@ -250,4 +250,32 @@ theorem C01_full (G : Tables) (L : LTables) (hT : Rspirv.Props.C04.tablesSafe G 
     rw [hwords, List.length_append, flatMap_length_perm assembleInst hperm, hch.length hwok]
     rfl
 
+/-- **C01 (reload, no side conditions on the output).** For an accepted binary inside the property's exclusions, the only
+hypothesis left for "loading the assembled output again gives the same module" is that the regrouped instruction sequence
+is still a stream of instructions of the grammar (necessary: recorded finding `C01:reload-literal-width-late-type`); that the
+output consists of 32-bit words and is shorter than 2^63 bytes is now derived. -/
+theorem C01_reload_full (G : Tables) (L : LTables) (hT : Rspirv.Props.C04.tablesSafe G = true) (good : GoodTables G)
+    (bytes : List Nat) (hb : ∀ b ∈ bytes, b < 256) (hs : bytes.length < 2 ^ 63) (m : Module Inst)
+    (h : loadBytes G L bytes = .ok m)
+    (ht : ∀ hd is, load L hd is = .ok m → Chunks is (Spec.streamWords bytes) → TidyRun L (LState.start hd) is)
+    (hg : GrammarStream G [] (Rspirv.Props.C15.allInstIter m)) :
+    loadBytes G L ((Rspirv.Props.C15.assemble assembleInst m).flatMap Spec.wordBytes) = .ok m := by
+  obtain ⟨h20, hmagic, hd, is, hhd, hch, hl, hre, hrest⟩ := C01_full G L hT good bytes hb hs m h
+  obtain ⟨hperm, _, _, hwords, hlen⟩ := hrest (ht hd is hl hch)
+  have hle : ∀ o, le32 bytes o < 4294967296 := fun o => Rspirv.Props.ParserSpec.le32_lt bytes hb o
+  refine C01_reload_bytes G L hT good bytes m h hg ?_ ?_
+  · intro w hw
+    rw [hwords] at hw
+    rcases List.mem_append.1 hw with hw | hw
+    · subst hhd
+      simp only [List.mem_cons, List.not_mem_nil, or_false] at hw
+      have := hle 0; have := hle 4; have := hle 12
+      rcases hw with rfl | rfl | rfl | rfl | rfl <;> omega
+    · obtain ⟨i, hi, hwi⟩ := List.mem_flatMap.1 hw
+      exact (hre i (hperm.mem_iff.1 hi)).2 w hwi
+  · rw [hlen]
+    have : (Spec.streamWords bytes).length = (bytes.length - 20) / 4 := by
+      simp [Spec.streamWords]
+    omega
+
 end Rspirv.Props.C01Full
